@@ -156,11 +156,11 @@ Qed.
 Definition pinv (i : nat) (st : pas) : Prop :=
   pa_end st <= i /\ (pa_level st = 0 -> pa_buf st = []) /\ (pa_level st <> 0 -> pa_start st + 1 + length (pa_buf st) <= i).
 
-Arguments is_space : simpl never.
-Arguments strip : simpl never.
-Arguments parse_annotation_d : simpl never.
-Arguments has_key : simpl never.
-Arguments ann_set : simpl never.
+#[local] Arguments is_space : simpl never.
+#[local] Arguments strip : simpl never.
+#[local] Arguments parse_annotation_d : simpl never.
+#[local] Arguments has_key : simpl never.
+#[local] Arguments ann_set : simpl never.
 
 Lemma pa_loop_ok (b : Prop) popt ln q column : forall x i st,
   (b -> column + i + length x <= length q) ->
@@ -250,17 +250,17 @@ Proof.
 Qed.
 
 
-Arguments is_space : simpl never.
-Arguments strip : simpl never.
-Arguments parse_annotation_d : simpl never.
-Arguments parse_annotations_d : simpl never.
-Arguments parse_fields_d : simpl never.
-Arguments has_key : simpl never.
-Arguments ann_set : simpl never.
-Arguments bmatch : simpl never.
-Arguments py_lower : simpl never.
-Arguments part_set : simpl never.
-Arguments part_get : simpl never.
+#[local] Arguments is_space : simpl never.
+#[local] Arguments strip : simpl never.
+#[local] Arguments parse_annotation_d : simpl never.
+#[local] Arguments parse_annotations_d : simpl never.
+#[local] Arguments parse_fields_d : simpl never.
+#[local] Arguments has_key : simpl never.
+#[local] Arguments ann_set : simpl never.
+#[local] Arguments bmatch : simpl never.
+#[local] Arguments py_lower : simpl never.
+#[local] Arguments part_set : simpl never.
+#[local] Arguments part_get : simpl never.
 
 Definition cx_ok (cx : lctx) : Prop := cx_line cx = skipn (cx_co cx) (cx_orig cx) /\ cx_co cx <= length (cx_orig cx).
 Definition ext (b : Prop) (cx : lctx) (st st' : lst) : Prop :=
@@ -540,11 +540,11 @@ Proof.
 Qed.
 
 
-Arguments bmatch : simpl never.
-Arguments step_ident : simpl never.
-Arguments step_param : simpl never.
-Arguments step_tag : simpl never.
-Arguments step_cont : simpl never.
+#[local] Arguments bmatch : simpl never.
+#[local] Arguments step_ident : simpl never.
+#[local] Arguments step_param : simpl never.
+#[local] Arguments step_tag : simpl never.
+#[local] Arguments step_cont : simpl never.
 
 Lemma has13_app_r a b : has13 b -> has13 (a ++ b).
 Proof. intros [d [Hi Hc]]. exists d. split; [apply in_or_app; right; exact Hi|exact Hc]. Qed.
